@@ -5,7 +5,9 @@
       (prometheus/common config.Secret, config/common/url.go SecretURL and SecretTemplateURL, with
       commoncfg.MarshalSecretValue = false, the default, which the harness asserts). The model is a value tree
       whose VSecret leaves carry the secret text; [render] prints them the same way. The text layout of [render] is
-      NOT yaml.v2's (not modelled); what is modelled is the only thing the property needs: where the output
+      NOT yaml.v2's (not modelled); masking is modelled as a PURE function of the leaf: the real marshalers also read
+      the process-wide switch commoncfg.MarshalSecretValue, and that nothing (in particular config.Load, also not
+      transiently while a status request renders the running config) sets it is tied by the harness's concurrent engine; what is modelled is the only thing the property needs: where the output
       depends on a secret leaf.
 
    2. config.Coordinator.Reload: load the file; only if that succeeds store the new config and call the
